@@ -15,6 +15,7 @@ Inductive opc :=
 
 Record case := mkcase {
   c_verts : list (Z * Z * Z);       (* integer (lattice) coordinates *)
+  c_scale : Z;                      (* the coordinates handed to the implementation are these times 2^c_scale (exact) *)
   c_faces : list face;
   c_cells : list cell;
   c_edges : list edge;               (* mesh.edges as stored *)
@@ -112,7 +113,10 @@ Definition eval_op (ofl : lit -> T) (cotf : vec T -> vec T -> vec T -> T)
   end.
 
 Definition check_with (ofl : lit -> T) (cotf : vec T -> vec T -> vec T -> T) (c : case) : bool :=
-  let V := map (fun p : Z * Z * Z => let '(x, y, z) := p in (oofZ OP x, oofZ OP y, oofZ OP z)) (c_verts c) in
+  let k := c_scale c in
+  let sc := if 0 <=? k then oofZ OP (2 ^ k) else odiv OP (o1 OP) (oofZ OP (2 ^ (- k))) in
+  let V := map (fun p : Z * Z * Z => let '(x, y, z) := p in
+                  (omul OP sc (oofZ OP x), omul OP sc (oofZ OP y), omul OP sc (oofZ OP z))) (c_verts c) in
   forallb (fun o : opc * (Z * Z) * list (Z * Z * lit) =>
              let '(op, sh, imp) := o in
              let '(shm, M) := eval_op ofl cotf V (c_faces c) (c_cells c) (c_edges c) op in
